@@ -191,8 +191,9 @@ type Action struct {
 	// capability lines.
 	Text []string
 	// Raw, if non-nil, is written verbatim instead of a formatted reply. The
-	// state machine then goes by Code, or - if Code is 0 - by three leading
-	// digits of Raw, or else by the default code.
+	// state machine then goes by Code or, if Code is 0, by the three leading
+	// digits of Raw; if there are none the reply counts as code 0, i.e. as
+	// not positive: nothing is accepted, started or committed by it.
 	Raw []byte
 	// Delay is slept before anything else happens.
 	Delay time.Duration
@@ -249,7 +250,8 @@ type CmdRecord struct {
 	// "" for the lmtp-rcpt-status replies.
 	Line string
 	// ReplyCode is the code the server went by; 0 while no reply has been
-	// written (pending, dropped before, or write failure).
+	// written (pending, dropped before, write failure) and for a Raw reply
+	// without a recognisable code (Reply and ReplyAt tell the two apart).
 	ReplyCode int
 	// Reply holds the exact bytes written, line endings included.
 	Reply   string
@@ -859,9 +861,9 @@ func (c *conn) apply(act *Action, idx int, def reply) (code int, stop bool) {
 		if act.Raw != nil {
 			out = act.Raw
 			if act.Code == 0 {
-				if n := leadingCode(act.Raw); n != 0 {
-					rp.code = n
-				}
+				// Three leading digits or nothing: garbage is never taken
+				// for a positive reply.
+				rp.code = leadingCode(act.Raw)
 			}
 		}
 	}
